@@ -65,6 +65,7 @@ impl KeyOut for u64 { type Out = u64; open spec fn out_kb(o: u64) -> Seq<u8> { u
 impl<A: KeyOut, B: KeyOut> KeyOut for (A, B) { type Out = (A::Out, B::Out); open spec fn out_kb(o: (A::Out, B::Out)) -> Seq<u8> { pair_kb(A::out_kb(o.0), B::out_kb(o.1)) } }
 
 pub struct CwIter<T> { pub items: Vec<T> }
+pub uninterp spec fn filter_pred<T, F>(f: F) -> spec_fn(T) -> bool;
 pub trait FromCwIter<T>: Sized {
     spec fn built_from(self, s: Seq<T>) -> bool;
     fn build(v: Vec<T>) -> (r: Self) ensures r.built_from(v@);
@@ -89,10 +90,14 @@ impl<T> CwIter<T> {
         requires forall|i: int| 0 <= i < self.items@.len() ==> f.requires((self.items@[i],))
         ensures r.items@.len() == self.items@.len(), forall|i: int| 0 <= i < self.items@.len() ==> f.ensures((self.items@[i],), #[trigger] r.items@[i])
     { unimplemented!() }
+    /// the predicate handed to `filter` is called once per item; its result is modelled as a function `filter_pred(f)` of the item
+    /// value (ASSUMED: an `Fn(&T) -> bool` closure without interior mutability is deterministic); all that is known about that
+    /// function is that each result satisfies the closure's own postcondition
     #[verifier::external_body]
     pub fn filter<F: Fn(&T) -> bool>(self, f: F) -> (r: CwIter<T>)
         requires forall|i: int| 0 <= i < self.items@.len() ==> f.requires((&self.items@[i],))
-        ensures r.items@ == keep(self.items@, |x: T| f.ensures((&x,), true))
+        ensures r.items@ == keep(self.items@, filter_pred::<T, F>(f)),
+            forall|i: int| 0 <= i < self.items@.len() ==> f.ensures((&self.items@[i],), #[trigger] filter_pred::<T, F>(f)(self.items@[i]))
     { unimplemented!() }
     pub fn collect<B: FromCwIter<T>>(self) -> (r: B) ensures r.built_from(self.items@) { B::build(self.items) }
 }
@@ -101,7 +106,8 @@ impl<T> CwIter<T> {
 pub open spec fn typed_items<KO, V: SerT>(items: Seq<StdResult<(KO, V)>>, sel: Seq<Entry>, kb: spec_fn(KO) -> Seq<u8>) -> bool {
     items.len() == sel.len() && forall|i: int| 0 <= i < sel.len() ==> match #[trigger] items[i] {
         Ok((k, v)) => kb(k) == sel[i].0 && V::de(sel[i].1) == Some(v),
-        Err(_) => V::de(sel[i].1) is None,
+        // an item is an error only when the stored value or the stored key does not parse
+        Err(_) => V::de(sel[i].1) is None || forall|k: KO| #[trigger] kb(k) != sel[i].0,
     }
 }
 pub open spec fn typed_keys<KO>(items: Seq<StdResult<KO>>, sel: Seq<Entry>, kb: spec_fn(KO) -> Seq<u8>) -> bool {
